@@ -29,8 +29,7 @@ type SchedSpec struct {
 	Seed   uint64
 	Starve string
 	// PickBias: how select choices are made when several clauses may be ready:
-	// 0 = no preference (runtime decides), 1 = random rotation from the PRNG, 2 = always clause 0,
-	// 3 = always last clause.
+	// 0, 1 = random rotation from the PRNG, 2 = always clause 0, 3 = always last clause.
 	PickBias int
 	// MapOrder: 0 = sorted keys, 1 = random permutation from the PRNG, 2 = reversed.
 	MapOrder int
@@ -160,15 +159,15 @@ func (s *Sched) pick(site string, n int) int {
 	}
 	s.mu.Lock()
 	defer s.mu.Unlock()
+	// the simulator always decides: leaving the choice to the Go runtime would make runs
+	// unrepeatable
 	switch s.Spec.PickBias {
-	case 1:
-		return s.pickRng.Intn(n)
 	case 2:
 		return 0
 	case 3:
 		return n - 1
 	}
-	return n
+	return s.pickRng.Intn(n)
 }
 
 func (s *Sched) perm(site string, n int) []int {
@@ -323,12 +322,19 @@ func (s *Sched) Run(t *testing.T, fn func()) {
 					s.BudgetExceeded = true
 					break
 				}
+				acted := false
 				for actIdx < len(s.Actions) && s.Actions[actIdx].AtStep <= s.Steps && !s.Returned {
 					a := s.Actions[actIdx]
 					actIdx++
 					s.Log = append(s.Log, fmt.Sprintf("action %s @%d", a.Name, s.Steps))
 					s.ActionsDone = append(s.ActionsDone, a.Name)
 					a.Do()
+					acted = true
+				}
+				if acted {
+					// an action (cancel, ...) may wake goroutines that are blocked on wharf's own
+					// channels: let them run to quiescence before the next decision
+					continue
 				}
 
 				s.mu.Lock()
